@@ -83,8 +83,8 @@ Print Assumptions C14_generation_zero_observable.
 Theorem C14_view_sound : forall V s1 s2 c genOK mta ops,
   sc_limited c = true -> Inv s1 -> Inv s2 ->
   relevant V c s1 = relevant V c s2 ->
-  snd (tt_run (st_tt (search_prologue s1 c genOK mta)) ops) =
-  snd (tt_run (st_tt (search_prologue s2 c genOK mta)) ops).
+  snd (tt_run (st_tt (search_prologue V s1 c genOK mta)) ops) =
+  snd (tt_run (st_tt (search_prologue V s2 c genOK mta)) ops).
 Proof. exact view_sound_probes. Qed.
 Print Assumptions C14_view_sound.
 
@@ -105,9 +105,9 @@ Theorem C14_irrelevant_components : forall V s c k ch b nuc, sc_limited c = true
 Proof. exact relevant_irrelevant. Qed.
 Print Assumptions C14_irrelevant_components.
 
-Theorem C14_prologue_overwrites : forall s c k ch b genOK mta, sc_limited c = true ->
-  let p := search_prologue (with_irrelevant s k ch b (notUsedCnt (st_tt s))) c genOK mta in
-  let q := search_prologue s c genOK mta in
+Theorem C14_prologue_overwrites : forall V s c k ch b genOK mta, sc_limited c = true ->
+  let p := search_prologue V (with_irrelevant s k ch b (notUsedCnt (st_tt s))) c genOK mta in
+  let q := search_prologue V s c genOK mta in
   st_tt p = st_tt q /\ st_hist p = st_hist q /\ st_killers p = st_killers q /\
   st_evalCache p = st_evalCache q /\ st_matCache p = st_matCache q /\ st_opts p = st_opts q /\
   st_randomSeed p = st_randomSeed q /\ st_requiredTime p = st_requiredTime q.
